@@ -70,7 +70,7 @@ MENU = {
     'cont_use': ['only', 'list_amp', 'rename', 'comment_between'],
     'cont_call': ['args', 'name', 'member', 'args3'],
     'semi': ['calls', 'assign_call', 'use', 'decl', 'end', 'nospace'],
-    'inline_if': ['call', 'paren', 'member', 'nospace'],
+    'inline_if': ['call', 'paren', 'member', 'nospace', 'nest2', 'nest3'],
     'kw_comment': ['end_sub', 'call', 'use', 'contains', 'inline_call', 'end_type', 'interface', 'end_module'],
     'kw_string': ['call', 'end_sub', 'use_print', 'dq_semi', 'amp', 'bang', 'contains'],
     'label': ['call', 'continue', 'end', 'if_call', 'format'],
@@ -505,6 +505,10 @@ def build(devs, seed=0):
         s = P.call(['if ((k2 > 0) .and. (k2 < 99)) ', 'call ', 'util_step', '(k2)'], 'util_step', kind='if_call')
     elif ii == 'nospace':
         s = P.call(['if(k2>0)', 'call ', 'util_step', '(k2)'], 'util_step', kind='if_call')
+    elif ii == 'nest2':     # condition with parentheses nested two levels inside the IF parentheses
+        s = P.call(['if (abs(min(k2, 5)) > 0) ', 'call ', 'util_step', '(k2)'], 'util_step', kind='if_call')
+    elif ii == 'nest3':     # ... three levels
+        s = P.call(['if (abs(min(max(k2, 1), 5)) > 0) ', 'call ', 'util_step', '(k2)'], 'util_step', kind='if_call')
     elif lab == 'if_call':
         s = P.call(['if (k2 > 0) ', 'call ', 'util_step', '(k2)'], 'util_step', kind='if_call')
         s.label = '30'
